@@ -13,7 +13,7 @@ CONSTANTS Atoms,        \* value alphabet (bytes standing for their class)
           MaxSegs,      \* pattern segments
           LitPool,      \* literal segment texts
           MaxBaseQ, MaxPatQ, \* entries of the static queries of base path / pattern
-          Schemes, MaxSchemes
+          Schemes, MaxSchemes, MaxHistory
 
 VARIABLES track, in
 vars == <<track, in>>
@@ -45,7 +45,7 @@ NoQ == <<>>
 In0 == [base |-> [lead |-> TRUE, trailing |-> FALSE, segs |-> <<>>, query |-> NoQ],
         pat  |-> [trailing |-> FALSE, segs |-> <<>>, query |-> NoQ],
         vals |-> <<[n |-> NA, v |-> <<>>], [n |-> NB, v |-> <<>>]>>,
-        cq |-> NoQ, rs |-> <<>>, os |-> <<>>, host |-> "h"]
+        cq |-> NoQ, rs |-> <<>>, os |-> <<>>, hist |-> <<>>, host |-> "h"]
 
 Init == track = "start" /\ in = In0
 
@@ -105,7 +105,13 @@ AddScheme ==
      \/ /\ Len(in.os) < MaxSchemes /\ \E s \in Schemes : in' = [in EXCEPT !.os = Append(@, s)]
   /\ UNCHANGED track
 
-Next == ChooseBase \/ AddSeg \/ ClosePattern \/ GrowValue \/ StartQuery \/ AddQuery \/ StartScheme \/ AddScheme
+\* the same Runtime goes on to build a request for another operation (its own scheme list)
+NextOperation ==
+  /\ track = "scheme" /\ Len(in.hist) < MaxHistory - 1
+  /\ in' = [in EXCEPT !.hist = Append(@, in.os), !.os = <<>>]
+  /\ UNCHANGED track
+
+Next == NextOperation \/ ChooseBase \/ AddSeg \/ ClosePattern \/ GrowValue \/ StartQuery \/ AddQuery \/ StartScheme \/ AddScheme
 Spec == Init /\ [][Next]_vars
 
 \* ---- invariants
@@ -118,7 +124,8 @@ OrderIndependent == track \in {"pattern", "values"} => CodePath(in, <<1, 2>>) = 
 
 QueryHolds == track = "query" => ValuesOK(in, CodeQuery(in))
 
-SchemeHolds == track = "scheme" => SchemeOK(in.rs, in.os, PickScheme(in.rs, in.os))
+SchemeHolds == track = "scheme" =>
+  LET h == Append(in.hist, in.os) IN \A i \in 1..Len(h) : SchemeOK(in.rs, h[i], CodeSchemeAt(in.rs, h, i))
 
 \* the decoder used on real traces is the inverse of the encoder (sanity of the oracle itself)
 RECURSIVE EncodePairs(_)
